@@ -1,5 +1,2 @@
-import Hive.Base.Proto
-open Hive.Proto
-
-/-- Placeholder driver: answers `unimplemented` to every request. -/
-def main : IO Unit := run () (fun s _ => (s, "unimplemented"))
+import Hive.Model.SyncMutexExec
+def main : IO Unit := Hive.Proto.run Hive.SyncMutex.Exec.St.none Hive.SyncMutex.Exec.stepLine
